@@ -37,7 +37,7 @@ MIN_COUNTERS = dict(quick={'history_calls_compared': 1500, 'histories': 300, 'wa
 RULE = ('per shard a pool of 12 Derivative configurations (function, method, n, order, step options; configurations 2k and 2k+1 share '
         'their step options so one generator instance can serve both) plus 6 Gradient / Jacobian / Hessdiag / Hessian configurations (dimension 2-3), x 2 points, each reference computed in its own fresh '
         'interpreter; histories of <= 12 operations from {construct, call, set n/order/method and restore (with a call in '
-        'between), share a step generator, clear FD_RULES, pre-populate FD_RULES via other configurations, an object whose function raises after k evaluations, reuse at the '
+        'between), share a step generator, clear FD_RULES, pre-populate FD_RULES via other configurations, an object whose function raises after k evaluations, one array updated in place between calls, reuse at the '
         'other point}; threaded rounds: up to 16 threads with disjoint objects, forced switches (switchinterval 1e-6 and '
         'sleep(0) injected with p=0.3 at every line of the four anchored state-touching functions). distinct non-trivial = '
         'histories (hashed op sequence) containing >= 1 warm-cache call and >= 1 reused object whose reference differs from '
@@ -86,11 +86,12 @@ def make_pool(rng):
             method = str(rng.choice(ALL_METHODS if step['kind'] in ('default', 'scalar') else ALL_METHODS))
             n = int(rng.integers(1, 3)) if method == 'multicomplex' else int(rng.integers(1, 5))
             pts = []
+            psize = 0 if rng.random() < 0.6 else int(rng.integers(1, 4))      # both points of one shape (in-place updates)
             for _ in range(2):
-                if rng.random() < 0.6:
-                    pts.append(float(np.round(rng.uniform(-2, 2), 3)))
+                if psize == 0:
+                    pts.append(float(np.round(rng.uniform(-2, 2) * (1 if rng.random() < 0.7 else 30), 3)))
                 else:
-                    pts.append([float(v) for v in np.round(rng.uniform(-2, 2, size=int(rng.integers(1, 4))), 3)])
+                    pts.append([float(v) for v in np.round(rng.uniform(-2, 2, size=psize) * (1 if rng.random() < 0.7 else 30), 3)])
             if rng.random() < 0.12:
                 n = 0
             cfg = dict(fun=str(rng.choice(list(FUNS))), method=method, n=n, order=int(rng.choice([1, 2, 3, 4, 6, 8])),
@@ -267,8 +268,10 @@ def cases(rng, tier, shard, nshards):
                 ops.append(['prepopulate', [int(v) for v in rng.integers(0, NPOOL, size=3)]])
             elif u < 0.96:
                 ops.append(['prepopulate_all_parities'])
-            elif u < 0.98:
+            elif u < 0.975:
                 ops.append(['reuse_other_point', i_cfg])
+            elif u < 0.99:
+                ops.append(['inplace_update', i_cfg])
             else:
                 ops.append(['raise_midway', i_cfg, int(rng.integers(1, 12))])
             if u >= 0.55 and u < 0.67 and i_cfg >= 12:
@@ -405,6 +408,21 @@ def run_case(case, ctx):
                                detail=dict(where='shared_step_generator_other_order', config=acfg, extra=dict(ops=case['ops'])),
                                where='shared_step_generator_other_order')
                     return
+            elif name == 'inplace_update':
+                # the caller keeps one array object, evaluates at it, updates it in place and evaluates again (an optimisation
+                # loop): the second result is that of the new point, whatever the object remembers of the first call
+                i = op[1]
+                if i not in objs:
+                    objs[i] = build(nd, pool[i])
+                arr = np.array(pool[i]['points'][0], dtype=float)
+                ctx.count('inplace_update_ops')
+                for k in (0, 1, 0):
+                    arr[...] = np.asarray(pool[i]['points'][k], dtype=float)
+                    got = call(objs[i], arr)
+                    ctx.count('history_calls_compared')
+                    if not _compare(ctx, 'same_array_updated_in_place', i, k, got, extra=dict(ops=case['ops'])):
+                        return
+                    last_point[i], last_result[i] = k, got
             elif name == 'raise_midway':
                 # another object of the same configuration whose function fails after a few evaluations: whatever the
                 # aborted call left behind (module-level work arrays, caches, generator state) must not reach later calls
